@@ -665,6 +665,9 @@ def assign_subscript(ex, st, tgt, v):
             raise OutsideSubset('store {} array into list of {}'.format(
                 dv.k, d.k), tgt)
         st.set_cell(base, A.larr_store(d, ii, dv))
+        sh = getattr(ex.reg, 'store_hook', None)
+        if sh is not None:
+            sh(ex, st, base, ii)
         return
     if isinstance(d, Arr):
         if d.view:
@@ -689,6 +692,9 @@ def assign_subscript(ex, st, tgt, v):
             ii = A.norm_index(d.n, di)
             need('index_in_range', z3.And(ii >= 0, ii < d.n))
             st.set_cell(base, A.store(d, ii, dv))
+            sh = getattr(ex.reg, 'store_hook', None)
+            if sh is not None:
+                sh(ex, st, base, ii)
             return
         raise OutsideSubset('array store index {!r}'.format(di), tgt)
     if isinstance(d, Arr2):
